@@ -28,7 +28,7 @@ Definition conn_link (st : state) (a : astate) (i : nat) (ac : aconn) : Prop :=
 Definition stream_link (st : state) (a : astate) (j : nat) (s : astream) : Prop :=
   exists si h, nget (streams st) j = Some si /\ hget (holders a) (Stream j) = Some h /\
                si_peer si = as_peer s /\ si_proto si = as_proto s /\ si_svc si = as_svc s /\
-               h_par h = stream_par s.
+               h_par h = stream_par s /\ (as_proto s = None -> as_svc s = None).
 
 Definition Link (st : state) (a : astate) : Prop :=
   (forall i ac, nget (aconns a) i = Some ac -> conn_link st a i ac) /\
@@ -55,7 +55,7 @@ Proof.
   intros st st' a a' Ec Es Eac Eas Hp [Lc Ls]. split.
   - intros i ac Gi. rewrite Eac in Gi. destruct (Lc i ac Gi) as (ci & h & P1 & P2 & P3 & P4 & P5 & P6).
     destruct (Hp (Conn i) h eq_refl P2) as (h' & G' & Ep). exists ci, h'. rewrite Ec, Ep. repeat split; assumption.
-  - intros j s Gj. rewrite Eas in Gj. destruct (Ls j s Gj) as (si & h & P1 & P2 & P3 & P4 & P5 & P6).
+  - intros j s Gj. rewrite Eas in Gj. destruct (Ls j s Gj) as (si & h & P1 & P2 & P3 & P4 & P5 & P6 & P7).
     destruct (Hp (Stream j) h eq_refl P2) as (h' & G' & Ep). exists si, h'. rewrite Es, Ep. repeat split; assumption.
 Qed.
 
